@@ -329,14 +329,16 @@ def plan(tier, seed):
 
 
 def run_shard(spec, res):
+    import os
     dl = Deadline(spec['budget_s'])
+    only_real = int(os.environ.get('KVERIF_C08_ONLY_REAL', '0'))   # diagnostic: skip the simulator, run that many real worlds per shard
     for i in range(spec['first'], spec['first'] + spec['count']):
-        if dl.over():
+        if dl.over() or only_real:
             break
         res.evaluations += 1
         run_case(case_rng(spec['seed'], ID, i), res, i, stress=(i % 4 == 0))
     # a few worlds of real gloo processes per shard (quick: 1, thorough: up to 12, while the budget lasts)
-    for j in range(1 if spec['tier'] == 'quick' else 12):
+    for j in range(only_real or (1 if spec['tier'] == 'quick' else 12)):
         if j and dl.over():
             break
         run_real_case(spec['seed'], res, spec['first'] + j)
